@@ -112,6 +112,7 @@ type Engine struct {
 	panicFn, panicExpr                                  string
 	curIntr                                             string
 	asciiProven                                         map[int]bool
+	fnStubs                                             map[string]string
 	excl                                                map[int]map[uint64]bool
 	simpMemo                                            map[int]*Term
 	SimplifiedAway                                      int
@@ -552,6 +553,14 @@ func (e *Engine) call(fr *frame, fnv Value, args []Value, in ssa.Instruction) Va
 
 func (e *Engine) callFunction(caller *frame, fn *ssa.Function, args []Value, env []Value) Value {
 	name := fn.String()
+	if st, ok := e.fnStubs[name]; ok {
+		switch {
+		case strings.HasPrefix(st, "str:"):
+			return st[4:]
+		case strings.HasPrefix(st, "err:"):
+			return e.errorValue(st[4:])
+		}
+	}
 	if f, ok := e.intr[name]; ok {
 		e.curIntr = name
 		return f(e, caller, args)
